@@ -1,4 +1,5 @@
 import H2.Proofs.ClientInter
+import H2.Proofs.ClientWFail
 import H2.Client.Locks
 /-!
 # C12 — every client request resolves exactly once, whatever the server does
@@ -8,6 +9,14 @@ teardown, `Close`, the read loop's `finish` and the timers, over an unbounded fa
 the server does only decides which `finish`/`rdSetErr`/`close` actions happen, and they may happen at
 any time. `H2.Client.Locks`: who holds and who asks for a request's ownership lock.
 The theorems hold for the code before and after fix F42 (`rv` arbitrary) unless stated.
+
+Write failures: in `H2.Client.Inter` the write loop can end by itself in three ways, each an action of
+the transition system the theorems quantify over: `wlWriteFail` (the HEADERS of a request cannot be
+written: `writeRequest`'s error branch), `wlBodyFail` (its HEADERS went out, a DATA write fails) and
+`wlFail` (any other write fails: a frame of `out`, the DATA of `flushPending`, a PING; or pings go
+unanswered). In `H2.Client.Locks` the error branch of `writeRequest` is `wlWriteFail` → `wlFailRelease` →
+`wlFailDelete`: the lock is given back before `deletePending` asks for it. The serial model (the one
+compared step by step with the real `Conn` under `failwrite`) has `write_failure_*` below.
 -/
 namespace H2.Props.C12
 
@@ -77,7 +86,64 @@ a reachable self-locked state (the deadlock reproduced by replays/…F46-C12-bef
 theorem F46_prefix_witness : ∃ s, H2.Client.Locks.Reach false s ∧ SelfLocked false s :=
   ⟨_, Reach.step (Reach.step Reach.init (Step.rdAcquire {} rfl rfl)) (Step.rdToFinish _ rfl), .rd, by decide, rfl⟩
 
+/-! ## write failures on the serial model (`cli … failwrite n`) -/
+
+open H2.Client in
+/-- **write_failure_resolves_all**: when the octets a step writes exceed what the transport still takes,
+the connection is dead after the step and every request that was in the stream table has a result
+waiting (or its caller has already taken one) -/
+theorem write_failure_resolves_all (c : Conn) (fs : List OutFrame) (b : Nat)
+    (hb : (wireBytes c fs).1.wbudget = some b) (ho : b < (wireBytes c fs).2) :
+    (afterWrites c fs).1.dead = true ∧ (afterWrites c fs).1.reqQueued = [] ∧
+    ∀ r ∈ (wireBytes c fs).1.reqs, ((wireBytes c fs).1.reqQueued.any fun p => p.2 == r.tag) = true →
+      ∃ r' ∈ (afterWrites c fs).1.reqs, r'.tag = r.tag ∧ (r'.errBuf.isSome = true ∨ r'.done = true) := by
+  obtain ⟨h1, h2⟩ := afterWrites_over c fs b hb ho
+  refine ⟨h2, by rw [h1]; rfl, fun r hr hq => ?_⟩
+  rw [h1]
+  exact dieWith_resolves _ _ r hr hq
+
+open H2.Client in
+/-- **write_failure_keeps_results**: the teardown after a failed write never replaces a result that was
+already waiting for its caller: a request ends once -/
+theorem write_failure_keeps_results (c : Conn) (fs : List OutFrame) (b : Nat)
+    (hb : (wireBytes c fs).1.wbudget = some b) (ho : b < (wireBytes c fs).2) (x : Err)
+    (r' : H2.Client.Req) (hr : r' ∈ (afterWrites c fs).1.reqs) :
+    ∃ r ∈ (wireBytes c fs).1.reqs, r'.tag = r.tag ∧ (r.errBuf = some x → r'.errBuf = some x) := by
+  rw [(afterWrites_over c fs b hb ho).1] at hr
+  exact dieWith_keeps _ _ x r' hr
+
+open H2.Client in
+/-- **write_budget_exact**: within the budget all the step's frames go out and the budget shrinks by
+exactly their octets; a transport that never fails leaves the model as it was before `failwrite` existed -/
+theorem write_budget_exact (c : Conn) (fs : List OutFrame) :
+    (∀ b, (wireBytes c fs).1.wbudget = some b → (wireBytes c fs).2 ≤ b →
+      (afterWrites c fs).1 = { (wireBytes c fs).1 with wbudget := some (b - (wireBytes c fs).2) }) ∧
+    ((wireBytes c fs).1.wbudget = none → (afterWrites c fs).1 = (wireBytes c fs).1) :=
+  ⟨fun b hb hw => afterWrites_within c fs b hb hw, afterWrites_never c fs⟩
+
 /-! ## non-vacuity -/
+
+open H2.Client in
+/-- the hypotheses of `write_failure_resolves_all` are satisfiable: a RST_STREAM (13 octets) against a
+transport that takes 5 more, one request in the table -/
+example : ∃ (c : Conn) (fs : List OutFrame) (b : Nat), (wireBytes c fs).1.wbudget = some b ∧ b < (wireBytes c fs).2 ∧
+    ∃ r ∈ (wireBytes c fs).1.reqs, ((wireBytes c fs).1.reqQueued.any fun p => p.2 == r.tag) = true :=
+  ⟨{ reqs := [{ tag := "a", sid := 1, hasConn := true }], reqQueued := [(1, "a")], wbudget := some 5 }, [.rst 1 8], 5,
+    rfl, by decide, { tag := "a", sid := 1, hasConn := true }, by simp [wireBytes], by decide⟩
+
+/-- a DATA write of `writeRequest` fails (`wlBodyFail`), the write loop tears the connection down and
+exits: the request's caller, waiting, finds the error — an instance of `no_stranded_request` through the
+write-failure actions -/
+example : ∃ s, Reach recheckFixed s ∧ s.wl = .exited ∧ (s.r 0).pc = .waiting ∧ (s.r 0).written = true ∧
+    (s.r 0).errBuf = some .fatal := by
+  have r1 := Reach.step (rv := recheckFixed) Reach.init (Step.enqueue init 0 rfl)
+  have r2 := Reach.step r1 (Step.recheckN _ 0 rfl rfl)
+  have r3 := Reach.step r2 (Step.wlBodyFail _ 0 rfl rfl)
+  have r4 := Reach.step r3 (Step.wlSetErr _ rfl)
+  have r5 := Reach.step r4 (Step.wlClose _ rfl)
+  have r6 := Reach.step r5 (Step.wlTakeAll _ rfl)
+  have r7 := Reach.step r6 (Step.wlDrainEnd _ rfl (by intro j; by_cases hj : j = 0 <;> simp [upd, init, res, hj]))
+  exact ⟨_, r7, rfl, by simp [upd, init, res], by simp [upd, init, res], by simp [upd, init, res]⟩
 
 /-- the write loop can exit with a request whose caller is waiting: `no_stranded_request` is not empty -/
 example : ∃ s, Reach recheckFixed s ∧ s.wl = .exited ∧ (s.r 0).pc = .waiting := by
